@@ -434,6 +434,9 @@ func (a *Aidc) ToAidu() (aidu Aidu) {
 		if each == '@' {
 			break
 		}
+		if int(each) >= len(decodeAidcTable) {
+			return 0
+		}
 
 		v := decodeAidcTable[each]
 		aidu <<= 6
